@@ -109,14 +109,14 @@ ExpectOk == FormatKnown /\ (P.pt = "I" \/ ~NeedsRef \/ (refPic.w = D[1] /\ refPi
 (* after a rejected call nothing may have changed *)
 UnchangedOk ==
     /\ StateObsOk(lastPic, refPic) /\ LastObsOk(lastPic)
-    /\ (posKnown => E.probe = ProbeAt(pos))
+    /\ (posKnown /\ Has("probe") => E.probe = ProbeAt(pos))
 RejectedStep(sigPrefix) ==      \* validate "err" outcome: state unchanged; continue with the next line
     /\ IF ~StateObsOk(lastPic, refPic)
        THEN Diag("IMPL", "failed-decode-changed-state", sigPrefix \o "-changed-reference-state",
                  [ret |-> E.ret, last |-> E.last, ref |-> E.ref, keys |-> E.keys, expLast |-> lastPic.tr, expRef |-> refPic.tr])
        ELSE IF ~LastObsOk(lastPic)
        THEN Diag("IMPL", "failed-decode-changed-picture", sigPrefix \o "-changed-last-picture", [ret |-> E.ret])
-       ELSE IF posKnown /\ E.probe # ProbeAt(pos)
+       ELSE IF posKnown /\ Has("probe") /\ E.probe # ProbeAt(pos)
        THEN Diag("IMPL", "failed-decode-moved-reader", sigPrefix \o "-moved-reader",
                  [ret |-> E.ret, got |-> E.probe, expected |-> ProbeAt(pos), pos |-> pos])
        ELSE IF l > 1 /\ Has("ropt") /\ "ropt" \in DOMAIN Rec[l - 1] /\ E.ropt # Rec[l - 1].ropt
@@ -252,7 +252,7 @@ Compare ==
           ELSE IF ~StateObsOk(np, NewRef(np))
           THEN Diag("IMPL", "reference-state", "reference-state-after-" \o P.pt,
                     [last |-> E.last, ref |-> E.ref, keys |-> E.keys, tr |-> P.tr, prevRef |-> refPic.tr])
-          ELSE IF E.probe # ProbeAt(endPos)
+          ELSE IF Has("probe") /\ E.probe # ProbeAt(endPos)
           THEN Diag("IMPL", "reader-position-after-picture", "reader-not-at-end-of-picture-" \o P.hk,
                     [got |-> E.probe, expected |-> ProbeAt(endPos), endPos |-> endPos, tr |-> P.tr, following |-> 8 * Len(src) - endPos])
           ELSE TRUE
